@@ -19,19 +19,19 @@ fn alphabet(_plan: &str, v: &str, t: Tier) -> Alphabet {
         // the alignment dimension: unrooted allocations with non-trivial (align, offset) around page
         // multiples, in the default and the large-object space, and long runs of small over-aligned
         // objects, next to rooted objects and across collections
-        return Alphabet { sizes: vec![40], sems: vec![Sem::Default], gc_kinds: vec![false, true], bursts: vec![(264, 100, 2)], align_bursts: true, eph_chains: vec![], two_mutators: false, pins: false, cross_writes: false, fields: 0 };
+        return Alphabet { sizes: vec![40], sems: vec![Sem::Default], gc_kinds: vec![false, true], bursts: vec![(264, 100, 2)], refused_allocs: false, align_bursts: true, eph_chains: vec![], two_mutators: false, pins: false, cross_writes: false, fields: 0 };
     }
     if v == "stress" {
         // long mixed-size bursts: the precise-stress paths juggle the limits of both bump
         // pointers, which only matters once many blocks have been consumed
-        return Alphabet { sizes: vec![40, 264], sems: vec![Sem::Default], gc_kinds: vec![false, true], bursts: vec![(1, 2400, 3), (264, 100, 2)], align_bursts: true, eph_chains: vec![], two_mutators: false, pins: false, cross_writes: false, fields: 0 };
+        return Alphabet { sizes: vec![40, 264], sems: vec![Sem::Default], gc_kinds: vec![false, true], bursts: vec![(1, 2400, 3), (264, 100, 2)], refused_allocs: false, align_bursts: true, eph_chains: vec![], two_mutators: false, pins: false, cross_writes: false, fields: 0 };
     }
     Alphabet {
         sizes: vec![40, 264, 81920],
         sems: vec![Sem::Default],
         gc_kinds: vec![false, true],
         bursts: if t == Tier::Thorough { vec![(264, 150, 2), (40, 400, 3), (2048, 40, 2), (1, 400, 3)] } else { vec![(264, 100, 2), (40, 250, 3), (1, 160, 3)] },
-        align_bursts: false, eph_chains: vec![], two_mutators: true,
+        refused_allocs: false, align_bursts: false, eph_chains: vec![], two_mutators: true,
         pins: false,
         cross_writes: false,
         fields: 0,
